@@ -72,6 +72,22 @@ theorem codeAt_of_embed {name : String} : ∀ {code : Code} {pre vcode post : Li
             (vcode := vrest) (post := post) hr
           simpa using this
 
+theorem embed_length : ∀ {code : Code} {vcode : List VEntry}, embed code = some vcode →
+    vcode.length = code.length
+  | [], vcode, h => by simp [embed] at h; subst h; rfl
+  | ce :: rest, vcode, h => by
+    simp only [embed, List.mapM_cons, Option.bind_eq_bind, Option.pure_def] at h
+    cases hv : Pipeline.vinstr ce.1 with
+    | none => simp [hv] at h
+    | some vi =>
+      simp only [hv, Option.map_some, Option.bind_some] at h
+      cases hr : List.mapM (fun ce => (Pipeline.vinstr ce.1).map fun vi => (vi, Pipeline.spansOf ce.2)) rest with
+      | none => simp [hr] at h
+      | some vrest =>
+        simp only [hr, Option.bind_some, Option.some.injEq] at h
+        subst h
+        simp [embed_length (code := rest) hr]
+
 /-! ### spans -/
 
 /-- both ends of the range carry a span -/
